@@ -71,6 +71,11 @@ func init() {
 
 func isNamed(names ...string) func(string) bool { return Is(names...) }
 
+func isParamOfDeadFunc(u *Unit, v ssa.Value) bool {
+	p, ok := v.(*ssa.Parameter)
+	return ok && u.DeadUnexported(p.Parent())
+}
+
 // ---------------------------------------------------------------- C12
 
 func runC12(c *Ctx) {
@@ -252,6 +257,8 @@ func runC13(c *Ctx) {
 					hasAnon = true
 				case o.Kind == "field" && (o.Desc == "stickySink.auth" || o.Desc == "CallContext.stickySink" || o.Desc == "stickyCleanup.sink"):
 					// pass-through storage; the stored values are walked too
+				case o.Kind == "param" && isParamOfDeadFunc(u, o.Val):
+					// parameter of an unexported function with no caller and no use as a value in non-test code (test-only helper)
 				case o.Kind == "const" && o.Desc == "nil":
 					// nil *AuthContext: tokenAad maps it to the anonymous identity; only reachable for zero-valued sinks
 				default:
